@@ -286,7 +286,9 @@ def check(tier: str) -> Result:
     # ---- R3: the cube stored by step is exactly the selected move applied to the incoming cube (no dependence on its content)
     sfc = StepFlow(ea)
     newc = uncopy(sfc.new["cube"])
-    pure = ext_name(newc) == "jax.lax.switch" and len(newc.args[1]) >= 3 and newc.args[1][2] is sfc.old["cube"]
+    oldc = sfc.old["cube"]
+    pure = (ext_name(newc) == "jax.lax.switch" and len(newc.args[1]) >= 3 and newc.args[1][2] is oldc and not contains(newc.args[1][0], oldc)) or \
+        (newc.kind == "choice" and newc.args[0] == "switch" and not contains(newc.args[1], oldc))
     res.add("C17.R3", site_s, fn_s, "State.cube after step is lax.switch(move index, all moves, incoming cube) and nothing else", pure,
             txt(newc, 3, 160) if pure else f"{txt(newc, 3, 160)} -- the move applied depends on the cube's content (actions must be state-independent permutations)")
     # ---- R5 sliding tile
